@@ -78,6 +78,7 @@ static tpt_p	hook_started[NTHR + 2];		/* tpt pointers whose start hook ran and w
 static int	n_msg_cb, n_req_cb, edeadlk_ok = 1;
 static size_t	thr_num_of_slot[NTHR];	/* recorded at pthread_create time (the pool object is gone after tp_destroy) */
 
+static int hook_stop_raw[NTHR + 1];	/* every stop-hook invocation, balanced or not */
 static void
 h_on_start(tpt_p tpt) {
 	if (destroyed) after_destroy_cb ++;
@@ -98,6 +99,10 @@ h_on_start(tpt_p tpt) {
 static void
 h_on_stop(tpt_p tpt) {
 	if (destroyed) after_destroy_cb ++;
+	{
+		size_t n0 = tpt_get_num(tpt);
+		if (n0 <= (size_t)NTHR) hook_stop_raw[n0] ++;
+	}
 	int found = 0;
 	for (int i = 0; i < NTHR + 2; i ++) {
 		if (!found && tpt == hook_started[i]) {
@@ -117,9 +122,11 @@ h_on_stop(tpt_p tpt) {
 }
 
 static int shutdown_write_failed;
+static int shutdown_called;	/* tp_shutdown() has been called from outside the pool */
 static void
 do_shutdown(tp_p p) {
 	int before = v_n_write_fail;
+	shutdown_called = 1;
 	tp_shutdown(p);
 	if (v_n_write_fail != before)
 		shutdown_write_failed = 1;
@@ -170,6 +177,10 @@ h_block(void) { /* a blocking epoll_wait() of a worker finds nothing */
 #endif
 		join_never_returns ++;
 		V_ASSERT(0, "pthread_join() in tp_shutdown_wait returns: the joined worker does not wait forever in its loop");
+	} else if (1 == run_ctx && shutdown_called) {
+		/* the caller of tp_thread_attach_first() serves a pool that was shut down before it attached: the shutdown
+		 * message was sent before this thread existed, nobody will ever wake it (seeded change C11-attach-after-shutdown) */
+		V_ASSERT(0, "tp_thread_attach_first() on a pool that is already shut down returns instead of serving forever");
 	} else {
 		H_STOP("an explicitly scheduled thread would have to wait: history not representable in the nested-call model");
 	}
@@ -236,10 +247,12 @@ harness(void) {
 #ifdef BIND
 	s.flags = IN.bind_cpu ? TP_S_F_BIND2CPU : 0;
 #endif
-	if (IN.use_hooks) {
+	/* bit 0: start hook installed, bit 1: stop hook installed (all four settings; the seeded change
+	 * C11-pvt-running-only-with-start-hook needs "stop hook only") */
+	if (IN.use_hooks & 1)
 		s.tpt_on_start = h_on_start;
+	if (IN.use_hooks & 2)
 		s.tpt_on_stop = h_on_stop;
-	}
 	tp = SENTINEL;
 #ifdef CREATE_FAILS
 	V_ASSUME(IN.tp.fail_at >= 0);
@@ -256,10 +269,11 @@ harness(void) {
 	V_ASSERT(0 == v_live_allocs, "failed tp_create: every allocation freed again");
 	V_ASSERT(0 == v_live_threads, "failed tp_create: no thread left");
 #ifndef KF_PVT_STOP_HOOK
-	V_ASSERT(0 == hook_unbalanced, "failed tp_create: no stop hook for a thread whose start hook never ran");
+	if (3 == (IN.use_hooks & 3))	/* "unbalanced" is only defined when both hooks are installed */
+		V_ASSERT(0 == hook_unbalanced, "failed tp_create: no stop hook for a thread whose start hook never ran");
 #endif
 	for (t = 0; t <= NTHR; t ++)
-		V_ASSERT(hook_start[t] == hook_stop[t] && hook_start[t] <= 1, "failed tp_create: start/stop hooks balanced, at most once");
+		V_ASSERT(3 != (IN.use_hooks & 3) || (hook_start[t] == hook_stop[t] && hook_start[t] <= 1), "failed tp_create: start/stop hooks balanced, at most once");
 	V_ASSERT(0 == hook_foreign, "hooks are called with pool threads");
 	V_WITNESS("creation failed and was unwound");
 	if (hook_start[NTHR] > 0) V_WITNESS("failure after the virtual thread had started");
@@ -269,7 +283,7 @@ harness(void) {
 	V_ASSUME(0 != IN.tp.ncpu);
 	r = tp_create(&s, &tp);
 	V_ASSERT(0 == r && SENTINEL != tp, "tp_create succeeds when every resource is available");
-	V_ASSERT(!IN.use_hooks || (1 == hook_start[NTHR] && 0 == hook_stop[NTHR]), "virtual thread: start hook once at creation");
+	V_ASSERT(!(IN.use_hooks & 1) || (1 == hook_start[NTHR] && 0 == hook_stop[NTHR]), "virtual thread: start hook once at creation");
 
 	for (size_t i = 0; i < NHIST; i ++) {
 		char op = HIST[i];
@@ -337,7 +351,11 @@ harness(void) {
 #ifndef KF_EXITED_THREAD_NOT_JOINED
 	V_ASSERT(0 == v_live_threads, "after tp_destroy: every created thread was joined (released)");
 #endif
-	if (IN.use_hooks) {
+	if (2 == (IN.use_hooks & 3)) {
+		V_ASSERT(1 == hook_stop_raw[NTHR], "stop hook only: the virtual thread's stop hook runs exactly once");
+		V_WITNESS("stop hook only");
+	}
+	if (3 == (IN.use_hooks & 3)) {
 		V_ASSERT(1 == hook_start[NTHR] && 1 == hook_stop[NTHR], "virtual thread: start and stop hook exactly once");
 		for (t = 0; t < NTHR; t ++) {
 			V_ASSERT(hook_start[t] == hook_stop[t] && hook_start[t] <= 1, "worker: start and stop hook exactly once if it ran");
